@@ -63,15 +63,15 @@ impl<'value, T: 'value> Stream<T> {
     // Contract: all slices will be non-empty
     pub(crate) fn slice_iter(&self, cursor: StreamCursor) -> impl Iterator<Item = &[T]> {
         self.previous_values
-            .slice_iter(cursor.previous_start_idx)
-            .chain(self.current_values.slice_iter(cursor.current_start_idx))
+            .slice_iter_after(cursor.previous_seen)
+            .chain(self.current_values.slice_iter_after(cursor.current_seen))
             .chain(self.new_values.slice_iter(cursor.new_start_idx))
     }
 
     pub(crate) fn cursor(&self) -> StreamCursor {
         StreamCursor::new(
-            self.previous_values.generations_count(),
-            self.current_values.generations_count(),
+            self.previous_values.generation_lens(),
+            self.current_values.generation_lens(),
             self.new_values.generations_count(),
         )
     }
